@@ -110,5 +110,8 @@ def disarm() -> None:
 
 
 def read_budget(n_octets: int) -> float:
-    """CPU seconds allowed for one read() call: the readers need about 2 microseconds per octet; 6 s + 20 us per octet is generous for any chunk."""
-    return CPU_LIMIT_S + 20e-6 * n_octets
+    """CPU seconds allowed for one read() call: the readers need about 2 microseconds per octet; 6 s + 20 us per octet + 3 ms x (chunk / 64 KiB)^2."""
+    # (the unchanged HDLC reader re-slices its whole buffer after every completed frame, so a call that carries many frames costs
+    # time proportional to frames x buffer size: the quadratic term keeps multi-MiB calls out of the verdict - the budget is there to
+    # turn a call that never returns into a verdict, not to judge speed)
+    return CPU_LIMIT_S + 20e-6 * n_octets + 3e-3 * (n_octets / 65536.0) ** 2
